@@ -763,13 +763,15 @@ int SimulateMsp430::two_operand_exe(uint16_t opcode)
       src = get_data(src_reg, As, bw, ea);
       update_reg(src_reg, As, bw);
       dst = get_data(dst_reg, Ad, bw, ea);
-      src = ((~((uint16_t)src)) & 0xffff) + 1;
+      // dst - src is computed as dst + ~src + 1 so that the carry (no
+      // borrow) and the overflow come out as the CPU defines them.
+      src = ((~((uint16_t)src)) & 0xffff);
       if (bw == BW_BYTE)
       {
         dst = dst & 0xff;
         src = src & 0xff;
       }
-      result = dst + src;
+      result = dst + src + 1;
       update_v(dst, src, result, bw);
       dst = result & 0xffff;
       put_data(ea, dst_reg, Ad, bw, dst);
@@ -780,13 +782,15 @@ int SimulateMsp430::two_operand_exe(uint16_t opcode)
       src = get_data(src_reg, As, bw, ea);
       update_reg(src_reg, As, bw);
       dst = get_data(dst_reg, Ad, bw, ea);
-      src = ((~((uint16_t)src)) & 0xffff) + 1;
+      // dst - src is computed as dst + ~src + 1 so that the carry (no
+      // borrow) and the overflow come out as the CPU defines them.
+      src = ((~((uint16_t)src)) & 0xffff);
       if (bw == BW_BYTE)
       {
         dst = dst & 0xff;
         src = src & 0xff;
       }
-      result = dst + src;
+      result = dst + src + 1;
       update_v(dst, src, result, bw);
       dst = result & 0xffff;
       update_nz(dst, bw);
